@@ -51,6 +51,11 @@ pub struct TestSpec {
     /// command; the sleep counts against the document limit
     #[serde(default)]
     pub wait_ms: Option<u64>,
+    /// the command first makes its shell deaf to SIGTERM: 0 = no, 1 = `trap '' TERM` (ignored),
+    /// 2 = `trap 'echo cleanup' TERM` (handler). No influence on the model: a limit bounds such a
+    /// command like any other
+    #[serde(default)]
+    pub trap_term: u8,
 }
 
 impl TestSpec {
@@ -66,6 +71,7 @@ impl TestSpec {
             sleep_ms: 0,
             detached: false,
             wait_ms: None,
+            trap_term: 0,
         }
     }
 }
